@@ -7,6 +7,37 @@ import Wbxml.Model.EncXml
 namespace Wbxml.Lemmas.ParserSafe
 open Wbxml Wbxml.Model
 
+-- The error-code constants are literals (none of them is 0 = `WBXML_OK`).
+attribute [local simp] E.badDatetime E.internal E.langTableUndefined E.tagTableUndefined E.b64Enc
+  E.wvDatetimeFormat E.noCharsetConv E.charsetStrLen E.charsetNotFound E.attrTableUndefined
+  E.attrValueTableUndefined E.badOpaqueLength E.emptyWbxml E.endOfBuffer E.extValueTableUndefined
+  E.invalidStrtblIndex E.nullStringTable E.stringExpected E.strtblLength E.unknownAttrValue
+  E.unknownExtensionToken E.unknownPublicId E.unvalidMbUint32 E.wvIntegerOverflow E.invalidUnicode
+
+/-- The tree builder's only error code is 13 (`WBXML_ERROR_INTERNAL`). -/
+theorem attach_error (b : BState) (n : Node) :
+    (b.attach n).error = b.error ∨ (b.attach n).error = some E.internal := by
+  unfold BState.attach
+  repeat' split
+  all_goals first | exact Or.inl rfl | exact Or.inr rfl
+
+theorem buildStep_error (main : List Lang) (emb : Nat → Bytes → Option Tree) (b : BState) (e : Event) :
+    (buildStep main emb b e).error = b.error ∨ (buildStep main emb b e).error = some E.internal := by
+  unfold buildStep
+  repeat' split
+  all_goals first | exact Or.inl rfl | exact Or.inr rfl | exact attach_error _ _
+
+theorem run_error (main : List Lang) (emb : Nat → Bytes → Option Tree) : ∀ (es : List Event) (b : BState),
+    (b.error = none ∨ b.error = some E.internal) →
+    ((es.foldl (buildStep main emb) b).error = none ∨ (es.foldl (buildStep main emb) b).error = some E.internal)
+  | [], _, h => h
+  | e :: es, b, h => by
+    rw [List.foldl_cons]
+    refine run_error main emb es _ ?_
+    rcases buildStep_error main emb b e with h1 | h1
+    · rw [h1]; exact h
+    · exact Or.inr h1
+
 /-- `wbxml_tree_from_wbxml` with at least one unit of fuel returns a tree or an error code: the
     verdict is the parser's, or the tree builder's error code. -/
 theorem treeOfWbxml_safe (main : List Lang) (f lang cs : Nat) (bs : Bytes) :
@@ -17,7 +48,12 @@ theorem treeOfWbxml_safe (main : List Lang) (f lang cs : Nat) (bs : Bytes) :
   · rename_i e he
     rw [he] at hp
     cases e <;> first | exact hp | exact True.intro
-  · split <;> simp
+  · split
+    · rename_i e he
+      rcases run_error main _ _ {} (Or.inl rfl) with h | h
+      · rw [h] at he; cases he
+      · rw [h] at he; cases he; simp
+    · simp
 
 /-- `parse_text`/`xml_encode_text`: success or error 18 (base64 of an empty buffer). -/
 theorem xmlText_safe (c : XCfg) (s : Bytes) (st : XSt) : Safe (xmlText c s st) := by
@@ -154,7 +190,7 @@ theorem treeToXml_safe (cfg : W2XCfg) (fuel : Nat) (t : Tree)
     code or a tree, and the result is that of the XML stage on this tree. -/
 theorem wbxml2xml_anatomy (cfg : W2XCfg) (bs : Bytes) :
     (bs = [] ∧ wbxml2xml cfg bs = .error (.code 12)) ∨
-    (∃ c, treeOfWbxml cfg.main (bs.length + 1) cfg.lang cfg.charset bs = .error (.code c) ∧
+    (∃ c, c ≠ 0 ∧ treeOfWbxml cfg.main (bs.length + 1) cfg.lang cfg.charset bs = .error (.code c) ∧
         wbxml2xml cfg bs = .error (.code c)) ∨
     (∃ t, treeOfWbxml cfg.main (bs.length + 1) cfg.lang cfg.charset bs = .ok t ∧
         wbxml2xml cfg bs = treeToXml cfg (2 * bs.length + 4) t) := by
@@ -166,8 +202,8 @@ theorem wbxml2xml_anatomy (cfg : W2XCfg) (bs : Bytes) :
     have h1 : (b :: r).isEmpty = false := rfl
     simp only [h1, Bool.false_eq_true, if_false]
     rcases (treeOfWbxml_safe cfg.main (b :: r).length cfg.lang cfg.charset (b :: r)).cases with
-      ⟨t, ht, _⟩ | ⟨c, hc⟩
+      ⟨t, ht, _⟩ | ⟨c, hc, hc0⟩
     · exact Or.inr ⟨t, ht, by rw [ht]; rfl⟩
-    · exact Or.inl ⟨c, hc, by rw [hc]; rfl⟩
+    · exact Or.inl ⟨c, hc0, hc, by rw [hc]; rfl⟩
 
 end Wbxml.Lemmas.ParserSafe
